@@ -749,4 +749,13 @@ def check_names(rep, ctx, sctx):
             rep.add(Query("rolling log: archive name located", "inconclusive", "", 0, "mirsym", key="C19.names.log"))
     else:
         rep.add(Query("rolling log: name helpers located", "inconclusive", "%d/%d/%d" % (len(g), len(a), len(lf)), 0, "mirsym", key="C19.names.log"))
+    # ---------- event directory: the cap is compared with get_files(dir).len(): every regular file counts, whatever it is called ----------
+    gf = [p for p in sctx.idx.files if p.endswith("misc_helpers::get_files")]
+    ev = [p for p in sctx.idx.files if re.search(r"event_logger::start::\{closure#0\}$", p)]
+    if len(gf) == 1:
+        skips, keep = lister_skip_conditions(rep, sctx, gf[0], "get_files", lambda v, ev_: None)
+        rep.add(Query("event directory: get_files leaves out no regular file (the count the cap is compared with is the number of files there)", "holds" if not skips and keep else "violated",
+                      "%d path(s) on which a regular file with a valid name is not listed" % len(skips), 0, "mirsym+z3", key="C19.names.events.member", reproduced=None))
+    else:
+        rep.add(Query("misc_helpers::get_files located", "inconclusive", "%d candidates" % len(gf), 0, "mirsym", key="C19.names.events.member"))
     rep.assumptions += ["settings (log file name, extension) are non-empty file-name text without '/'", "nanosecond counts of two files have the same number of digits (true from 2001 to 2286)"]
